@@ -274,7 +274,7 @@ func (sr *seqRule) segments(root *Func) []Segment {
 		want := depth(entry.get("stk"))
 		for depth(s.get("stk")) > want {
 			pos, prefix, rest := top(s)
-			emit("iter", pos, s.get("seq"), s, pos, nil, false, "return")
+			emit("iter", pos, s.get("seq"), s, pos, nil, true, "return")
 			s = app(s.set("stk", rest).set("seq", prefix), "loop@"+pos)
 		}
 		return s
